@@ -23,7 +23,7 @@ OPS = catalog.OPS
 import os as _os
 SURVEY = bool(_os.environ.get('VERIF_SURVEY'))
 ONLY = _os.environ.get('VERIF_ONLY')
-FAULT_KINDS = ['poison', 'abandon', 'interleave', 'rng', 'dbrefresh', 'scribble', 'reuse']
+FAULT_KINDS = ['poison', 'abandon', 'interleave', 'rng', 'dbrefresh', 'scribble', 'reuse', 'owneredit', 'warnerr']
 
 
 def setup():
@@ -635,7 +635,17 @@ def _gen_random_plan(S, header, tier):
             choices.append(('rng', 1.0))
         if 'dbrefresh' in faults and S.coin(0.03):
             choices.append(('dbrefresh', 1.0))
+        if 'owneredit' in faults and calls:
+            choices.append(('owneredit', 1.5))
         act = S.weighted(choices)
+        if act == 'owneredit':
+            # the client edits, in place, a list / dictionary / config object of its own that it has been passing to
+            # calls and goes on passing the same object: later calls must see the new content, nothing stale
+            used = sorted(set(a['h'] for e in events if e['act'] == 'call' for a in e['args'].values()
+                              if 'h' in a and a['h'][0] not in 'AS'))
+            if used:
+                events.append({'act': 'owneredit', 'client': client, 'h': S.pick(used), 'k': S.randint(0, 999)})
+            continue
         if act == 'call':
             po = catalog.pick_op(S, W, names)
             if po is None:
@@ -653,6 +663,8 @@ def _gen_random_plan(S, header, tier):
             events.append({'act': 'call', 'client': client, 'op': name, 'args': args, 'out': rh,
                            'twin_first': S.coin(0.5), 'pristine': S.coin(0.05),
                            'ref': 'pristine' if S.coin(0.04) else None})
+            if 'warnerr' in faults and not OPS[name].lazy and S.coin(0.35):
+                events[-1]['warnerr'] = True       # the client runs with warnings turned into errors (-W error)
             W['results'][rh] = name
             calls += 1
             if OPS[name].lazy:
@@ -787,6 +799,8 @@ def execute(plan):
             stop = _do_lazy(run, ev_i, ev)
         elif act == 'scribble':
             stop = _do_scribble(run, ev_i, ev)
+        elif act == 'owneredit':
+            stop = _do_owner_edit(run, ev_i, ev)
         elif act == 'rng':
             if ev['how'] == 'draw':
                 for _ in range(ev['n'] % 7 + 1):
@@ -978,7 +992,15 @@ def _do_call(run, ev_i, ev, touched):
         t_ok, t_res = twin_eval()
         out.probes['twin_first'] += 1
     g0 = G.cheap()
-    s_ok, s_res = _call(o, sargs)
+    warned = False
+    if ev.get('warnerr') and not o.lazy:
+        import warnings
+        with warnings.catch_warnings():
+            warnings.simplefilter('error')
+            s_ok, s_res = _call(o, sargs)
+        warned = (not s_ok) and isinstance(s_res, Warning)
+    else:
+        s_ok, s_res = _call(o, sargs)
     g1 = G.cheap()
     # dump the result at once: later restores / scribbles must not leak into what is compared
     if not (o.lazy and s_ok):
@@ -1039,6 +1061,13 @@ def _do_call(run, ev_i, ev, touched):
         nt = ['exc', 'NoError', ''] if t_ok else t_res
     else:
         nt = t_res
+    if warned:
+        # the call was cut short by a warning raised as an error (a crash point inside the call): arguments and
+        # process-wide state were checked above; there is no result to compare
+        out.faults['warnerr'] += 1
+        out.record([ev_i, 'warned', ns])
+        run.calls_since += 1
+        return False
     out.record([ev_i, ns if not o.rng else 'rng'])
     if not o.rng:
         out.oracle_checks += 1
@@ -1052,6 +1081,57 @@ def _do_call(run, ev_i, ev, touched):
         return True
     run.results[ev['out']] = {'val': s_res if s_ok else None, 'ev': ev, 'op': ev['op']}
     run.calls_since += 1
+    return False
+
+
+def _owner_edit(obj, k):
+    """an in-domain, in-place edit of a caller-owned list / dict / config object; returns a description or None"""
+    if isinstance(obj, list) and obj:
+        how = k % 4
+        if how == 0:
+            obj.append(copy.deepcopy(obj[0]))
+            return 'list.append-copy-of-first'
+        if how == 1 and len(obj) > 1:
+            del obj[-1]
+            return 'list.del-last'
+        if how == 2 and len(obj) > 1:
+            obj.reverse()
+            return 'list.reverse'
+        obj[0] = copy.deepcopy(obj[-1])
+        return 'list.first=last'
+    if isinstance(obj, dict) and obj:
+        how = k % 3
+        first = next(iter(obj))
+        if how == 0 and isinstance(obj[first], (int, float)) and not isinstance(obj[first], bool):
+            obj[first] = obj[first] + 1
+            return 'dict.value+1'
+        if how == 1 and len(obj) > 1:
+            obj.pop(list(obj)[-1])
+            return 'dict.pop-last'
+        obj[first] = obj.pop(first)
+        return 'dict.first-moved-to-end'
+    if isinstance(obj, pt.EnzymeConfig):
+        obj.missed_cleavages = (obj.missed_cleavages or 0) + 1
+        return 'enzcfg.missed_cleavages+1'
+    return None
+
+
+def _do_owner_edit(run, ev_i, ev):
+    out = run.out
+    h = ev['h']
+    obj = run.pool.get(h)
+    how = _owner_edit(obj, ev['k']) if obj is not None else None
+    if how is None:
+        out.record([ev_i, 'noop'])
+        return False
+    out.faults['owneredit'] += 1
+    out.record([ev_i, 'owneredit', how])
+    # suspended computations and results bound to the edited object may or may not see the edit: stop comparing them
+    for lz in run.lazies.values():
+        if any(a.get('h') == h for a in lz['ev']['args'].values()):
+            lz['twin_items'] = None
+    for rh in [rh for rh, r in run.results.items() if any(a.get('h') == h for a in r['ev']['args'].values())]:
+        del run.results[rh]
     return False
 
 
